@@ -1464,6 +1464,8 @@ def kinds_family(tier, seed):
         "factory": [("a", "int", None), ("items", "List[int]", ("f", "list")), ("d", "Dict[str, int]", ("f", "dict"))],
         "snake": [("first_name", "str", None), ("last_name_", "str", None), ("age", "int", ("v", "0"))],
         "custom_factory": [("a", "int", None), ("items", "List[int]", ("f", "make_items"))],
+        # private-looking names: NamedTuple forbids them, pydantic turns them into private attributes (documented) -> skipped
+        "private": [("id", "int", None), ("_rev", "int", None), ("_opt", "int", ("v", "0"))],
         "single": [("value", "Any", None)],
     }
     nms = {
@@ -1473,7 +1475,9 @@ def kinds_family(tier, seed):
         "map": {"map": {"a": "A", "first_name": ("n", "first")}},
         "omit": {"omit_default": True},
         "skip": {"skip": ["c", "age", "d"]},
+        "map_private": {"map": [("_rev", ("meta", ...))], "name_style": NameStyle.CAMEL},
     }
+    SPEC_EXCLUDES = {"private": {"namedtuple", "pydantic"}}
     def make_items():
         # never called by a correct pipeline (a factory runs per load); a tagged result exposes hoisting
         return ["made"]
@@ -1487,7 +1491,7 @@ def kinds_family(tier, seed):
                     rec = {"kind": "kinds", "spec": sname, "fields": [[n, t, list(d) if d else None] for n, t, d in spec], "nm": nname,
                            "model_kind": kind, "debug_trail": mode.name}
                     try:
-                        M = build_kind_model(kind, "M", spec, {"make_items": make_items})
+                        M = None if kind in SPEC_EXCLUDES.get(sname, ()) else build_kind_model(kind, "M", spec, {"make_items": make_items})
                         if M is None:
                             rec["inexpressible"] = True
                             emit(rec)
@@ -1511,16 +1515,28 @@ def kinds_family(tier, seed):
                         rec["trace"] = traceback.format_exc()[-600:]
                         emit(rec)
     # converters between kinds
-    for sname in ("req2", "req_types", "snake_req"):
+    from adaptix import P
+    from adaptix._internal.conversion.facade.provider import allow_unlinked_optional
+    for sname in ("req2", "req_types", "snake_req", "skip_mid"):
         spec = specs.get(sname) or [("first_name", "str", None), ("last_name_", "str", None)]
+        src_spec = dst_spec = spec
+        skipped = []
+        if sname == "skip_mid":
+            # the destination has an optional field in the MIDDLE that the source lacks and that is allowed to stay unlinked
+            src_spec = [("id", "int", None), ("rating", "int", ("v", "1"))]
+            dst_spec = [("id", "int", None), ("views", "int", ("v", "0")), ("rating", "int", ("v", "1"))]
+            skipped = ["views"]
         for ka in kinds:
             for kb in kinds:
-                rec = {"kind": "kinds_conv", "spec": sname, "fields": [[n, t, None] for n, t, d in spec], "src_kind": ka, "dst_kind": kb}
+                rec = {"kind": "kinds_conv", "spec": sname, "fields": [[n, t, None] for n, t, d in dst_spec], "src_kind": ka, "dst_kind": kb,
+                       "skipped": skipped}
                 try:
-                    A = build_kind_model(ka, "SrcM", spec)
-                    B = build_kind_model(kb, "DstM", spec)
+                    A = build_kind_model(ka, "SrcM", src_spec)
+                    B = build_kind_model(kb, "DstM", dst_spec)
+                    if A is None or B is None:
+                        continue
                     acc = CodeGenAccumulator()
-                    retort = ConversionRetort(recipe=[acc])
+                    retort = ConversionRetort(recipe=[*[allow_unlinked_optional(P[B][f]) for f in skipped], acc])
                     try:
                         retort.get_converter(A, B)
                         err = None
